@@ -162,6 +162,14 @@ def probe_order(version, all_metrics):
 VERSIONS = (2, 3, 3.0, 3.1, 4, 4.0)
 
 # characters whose upper()/lower()/casefold() never produce ASCII letters unless they are ASCII themselves
+COMMAND_WORDS = ("done", "end", "finish", "finished", "stop", "quit", "exit", "q", "bye", "abort", "cancel", "skip", "next", "pass", "back", "prev",
+                 "previous", "undo", "redo", "again", "repeat", "restart", "reset", "help", "h", "?", "??", "info", "list", "show", "all", "any", "none", "null",
+                 "nil", "default", "defaults", "same", "ditto", "unknown", "unset", "empty", "blank", "n/a", "na", "-", "--", "*", ".", "..", "...", "ok", "yes",
+                 "no", "y", "true", "false", "on", "off", "0", "1", "first", "last", "max", "min", "highest", "lowest", "worst", "best", "random", "auto",
+                 "eof", "^d", "^c", "\\q", ":q", ":wq", "save", "print", "vector", "score", "json", "version", "base", "temporal", "environmental", "threat",
+                 "supplemental", "not defined", "notdefined", "not_defined", "undefined", "nd", "x")
+
+
 SAFE_JUNK = "abcdefghijklmnopqrstuvwxyzABCDEFGHIJKLMNOPQRSTUVWXYZ0123456789 \t:/.-_?!é☃ж"
 
 
@@ -188,8 +196,24 @@ def script_strategy(version, all_metrics, order, complete=None):
         for m in order:
             n_bad = draw(st.sampled_from((0, 0, 0, 1, 1, 2, 3)))
             for _ in range(n_bad):
-                k = draw(st.integers(0, 4))
-                if k == 0 and draw(st.booleans()):
+                k = draw(st.integers(0, 6))
+                if k == 5:
+                    # the answer written the way a FIELD is written, with this or another metric's name, and a few relatives:
+                    # what a "paste the whole field" convenience would have to get exactly right
+                    val = draw(st.sampled_from(V.table[m]))
+                    other = draw(st.sampled_from(list(V.order)))
+                    a = draw(st.sampled_from((m + ":" + val, other + ":" + val, other.lower() + ":" + val.lower(), m + "=" + val, other + "=" + val,
+                                              m + " " + val, other + ":" + draw(st.sampled_from(V.table[other])), val + ":" + val, ":" + val, val + ":",
+                                              m + ":" + val + "/", "/" + val, m + "/" + val, other + ": " + val, m, other, m + ":", val + " " + val,
+                                              val + "," + val, val + "/" + val, "(" + val + ")", "[" + val + "]", "'" + val + "'", '"' + val + '"',
+                                              val + ".", val + "!", "-" + val, "+" + val, "=" + val, val + "=", "#" + val, val + " #", val + " # comment",
+                                              val + ";", val + "\\", "\\" + val)))
+                elif k == 6:
+                    # words that a dialogue might be taught to understand
+                    from . import gen
+                    a = draw(st.sampled_from(COMMAND_WORDS)) if draw(st.booleans()) else draw(st.sampled_from(gen.tree_constants()))
+                    a = draw(st.sampled_from((a, a.lower(), a.upper(), a.title(), " " + a)))
+                elif k == 0 and draw(st.booleans()):
                     # what a terminal sends for cursor keys, bracketed paste, backspace ...: part of the answer, hence not legal
                     val = draw(st.sampled_from(V.table[m]))
                     a = draw(st.sampled_from(("\x1b[D" + val, val + "\x1b[1;5C", "\x1b[A", "\x1b[200~" + val + "\x1b[201~", val + "\x08", "\x7f" + val,
